@@ -109,6 +109,16 @@ def real_specs(chk: common.Check) -> list[dict]:
         add(statement=late + 'x = 1\n', trace_threads=True, expect='plain', timeout=25, probe=True, probe_nolog=True, probe_dump_after=17, **extra)
     add(statement=late + "raise ValueError('main thread ends first')\n", policy=pol_next, trace_threads=True, expect='raise:ValueError', timeout=25,
         probe=True, probe_nolog=True, probe_dump_after=17)
+    # SIGINT while the main thread, past the script's last statement, waits for a thread that outlives the script ("during the final drain")
+    at_teardown = ("import threading, time, pathlib\n"
+                   "def w():\n    time.sleep(2.0)\n    a = 1\n    print('thread done', a)\n"
+                   "t = threading.Thread(target=w)\nt.start()\npathlib.Path('@@MARKER@@').write_text('x')\n")
+    add(statement=at_teardown, mode='continuous', trace_threads=True, expect='raise:KeyboardInterrupt|plain', timeout=30,
+        signal={'kind': 'interrupt', 'after_marker': True, 'delay': 0.5})
+    # … the same with the thread still to be prompted: open finding F-G10 (the interrupted wait is abandoned, the relay of commands is closed,
+    # the thread stops at a prompt nothing can answer)
+    add(statement=at_teardown, policy=pol_next, trace_threads=True, expect='raise:KeyboardInterrupt|plain', timeout=25, interrupt_at_teardown=True,
+        signal={'kind': 'interrupt', 'after_marker': True, 'delay': 0.5})
     # an idle executor left behind whose worker ran script code (open finding F-G9: the teardown waits for the worker to END)
     add(statement="from concurrent.futures import ThreadPoolExecutor\ndef f():\n    return 1\nex = ThreadPoolExecutor()\nr = ex.submit(f).result()\n",
         policy=pol_next, trace_threads=True, expect='plain', timeout=25, probe=True, probe_nolog=True, probe_dump_after=17, executor_left=True)
@@ -171,6 +181,20 @@ def idle_pool_worker_waited_for(r: dict) -> bool:
         if len(lines) >= 2 and any('concurrent/futures/thread.py' in l and 'in _worker' in l for l in lines[:3]) and not any('<string>' in l for l in lines):
             idle = True
     return closing and idle
+
+
+def interrupted_wait_for_outliving_thread(r: dict) -> bool:
+    """F-G10's mechanism: the child's main thread is already in the interpreter's shutdown (threading._shutdown, i.e. the run's teardown is over)
+    while a thread of the script sits at a Pdb prompt"""
+    blocks = (r.get('child_stacks') or '').split('\nThread ') + (r.get('child_stacks') or '').split('\nCurrent thread ')[1:]
+    at_prompt = shutting_down = False
+    for block in blocks:
+        lines = [l.strip() for l in block.splitlines() if l.strip().startswith('File ')]
+        if any('pdb_/prompt.py' in l and 'in prompt' in l for l in lines[:4]) and any('<string>' in l for l in lines):
+            at_prompt = True
+        if lines and 'threading.py' in lines[0] and 'in _shutdown' in lines[0] and any('multiprocessing/process.py' in l and '_bootstrap' in l for l in lines):
+            shutting_down = True
+    return at_prompt and shutting_down
 
 
 def check_real(spec: dict, r: dict) -> list[str]:
@@ -350,6 +374,8 @@ def run(chk: common.Check) -> None:
                 sig = 'interrupt_inside_queue_put'
             if 'never finished' in m[0] and (spec.get('signal') or {}).get('kind') == 'interrupt' and sigint_at_prompt_inside_asyncio_run(r):
                 sig = 'sigint_at_prompt_inside_asyncio_run'
+            if 'never finished' in m[0] and spec.get('interrupt_at_teardown') and interrupted_wait_for_outliving_thread(r):
+                sig = 'interrupted_wait_for_outliving_thread'
             if 'never finished' in m[0] and spec.get('executor_left') and idle_pool_worker_waited_for(r):
                 sig = 'idle_pool_worker_waited_for'
             oracle_fail.append(({'real_run': {k: v for k, v in spec.items()}, 'stacks': (r['rec'] or {}).get('stacks_at_timeout'), 'child_stacks': (r.get('child_stacks') or '')[-4000:],
